@@ -1388,6 +1388,24 @@ impl GRLParser {
         // Parse expressions like: User.Age >= 18, Product.Price < 100.0, user.age >= 18, etc.
         // Support both PascalCase (User.Age) and lowercase (user.age) field naming
         // Also support arithmetic expressions like: User.Age % 3 == 0, User.Price * 2 > 100
+        // An arithmetic left-hand side with parentheses, as in the documented
+        // `(Order.total - Order.discount) * 1.1 > 1000`, or one that starts with a literal
+        // (`2 * Order.qty > 5`) is outside the condition pattern below, which would reject it or
+        // match only its tail (`Order.qty > 5`): it is a test condition over the whole text.
+        if let Some((lhs, op, rhs)) = Self::split_arithmetic_comparison(clause_to_parse) {
+            let starts_with_field = lhs
+                .chars()
+                .next()
+                .map_or(false, |c| c.is_ascii_alphabetic() || c == '_');
+            if lhs.contains(|c: char| "+-*/%".contains(c))
+                && (lhs.contains('(') || !starts_with_field)
+            {
+                self.parse_value(rhs)?;
+                let condition = Condition::with_test(format!("{} {} {}", lhs, op, rhs), vec![]);
+                return Ok(ConditionGroup::single(condition));
+            }
+        }
+
         let captures = condition_regex().captures(clause_to_parse).ok_or_else(|| {
             RuleEngineError::ParseError {
                 message: format!("Invalid condition format: {}", clause_to_parse),
@@ -1422,6 +1440,40 @@ impl GRLParser {
             let condition = Condition::new(left_side, operator, value);
             Ok(ConditionGroup::single(condition))
         }
+    }
+
+    /// Split `lhs op rhs` at the first comparison operator (>=, <=, ==, !=, >, <) that is outside
+    /// string literals and outside parentheses; both sides must be non-empty.
+    fn split_arithmetic_comparison(clause: &str) -> Option<(&str, &'static str, &str)> {
+        let mut quote: Option<char> = None;
+        let mut depth = 0i32;
+        for (i, ch) in clause.char_indices() {
+            if let Some(q) = quote {
+                if ch == q {
+                    quote = None;
+                }
+                continue;
+            }
+            match ch {
+                '"' | '\'' => quote = Some(ch),
+                '(' => depth += 1,
+                ')' => depth -= 1,
+                _ if depth == 0 => {
+                    for op in [">=", "<=", "==", "!=", ">", "<"] {
+                        if clause[i..].starts_with(op) {
+                            let lhs = clause[..i].trim();
+                            let rhs = clause[i + op.len()..].trim();
+                            if lhs.is_empty() || rhs.is_empty() {
+                                return None;
+                            }
+                            return Some((lhs, op, rhs));
+                        }
+                    }
+                }
+                _ => {}
+            }
+        }
+        None
     }
 
     fn parse_conditions_within_object(&self, conditions_str: &str) -> Result<ConditionGroup> {
